@@ -144,8 +144,10 @@ class StrainScatter(FragmentTask):
     prop = "C05"
     reach = "S"
     qual = CO + "Colander.strain"
-    first = staticmethod(_src("for file_idxs, offsets in zip(box_index_map, new_offsets)"))
-    last = first
+    # from the pool call that collects the workers' results to the loop that stores them (the worker is its interface: task f
+    # returns the f-th offset list; the collection order is the pool's contract)
+    first = staticmethod(lambda s: isinstance(s, ast.With) and "self.strainer" in ast.unparse(s))
+    last = staticmethod(_src("for file_idxs, offsets in zip(box_index_map, new_offsets)"))
 
     def __init__(self):
         self.name = "strain.offsets-stored-per-box"
@@ -155,8 +157,11 @@ class StrainScatter(FragmentTask):
         a, b = z3.Ints("id_a id_b")
         ctx.assume(z3.Or(z3.And(a == 0, b == 2), z3.And(a == 2, b == 0)))
         offs = [[z3.Int("new_f0_0"), z3.Int("new_f0_1")], [z3.Int("new_f1_0")]]
-        frame = {"box_index_map": [Vec([a, b], "array"), Vec([1], "array")], "new_offsets": [list(offs[0]), list(offs[1])],
-                 "mapped_offsets": Vec([z3.Int("junk0"), z3.Int("junk1"), z3.Int("junk2")], "array")}
+        def strainer(ex_, args, kw):
+            return list(offs[args[0]])
+        strainer._pyvc_builtin = True
+        self_ = Record(CO + "Colander", strainer=strainer, boxes=[[None, None, None]])
+        frame = {"box_index_map": [Vec([a, b], "array"), Vec([1], "array")], "mp_calls": [0, 1], "self": self_, "lv": 0}
         return {"frame": frame, "ids": [[a, b], [1]], "offs": offs}
 
     def post(self, ex, inp, out):
@@ -175,8 +180,77 @@ class StrainScatter(FragmentTask):
                     ctx.oblige(f"post.offset-of-task{f}[{t}]-stored-for-its-box", z3.Implies(hyp, to_z3(mo.elem((c,))) == inp["offs"][f][t]), "P")
 
 
+class StrainLevel(FragmentTask):
+    """The body of the level loop of Colander.strain as a whole, from its first statement to the loop storing the new offsets
+    (real code; skeleton: 3 boxes over 2 interleaved files, symbolic distinct read offsets and index ranges).  The strainer is
+    its contract: for the t-th listed box it reads the FAB at offsets_r[t] of bfile_r as a box of index range box_indexes[t] and
+    returns, at position t, the offset it wrote it at.  Whatever bookkeeping lies in between: every box b of the level is read
+    by exactly one task entry - with b's own file, read offset and index range - and the offset stored for b is the one returned
+    for that entry; every output file is written by one task only."""
+    prop = "C05"
+    reach = "S"
+    qual = CO + "Colander.strain"
+    first = staticmethod(FragmentTask.assigns("level_files"))
+    last = staticmethod(_src("for file_idxs, offsets in zip(box_index_map, new_offsets)"))
+
+    def __init__(self):
+        self.name = "strain.level-body"
+
+    def setup(self, ex):
+        ctx = ex.ctx
+        off = [z3.Int(f"off{i}") for i in range(3)]
+        ctx.assume(z3.And(z3.Distinct(*off), *[x >= 0 for x in off]))
+        ILO, IHI = z3.Function("ILO", I, I, I), z3.Function("IHI", I, I, I)
+        indexes = [[[ILO(i, d) for d in range(3)], [IHI(i, d) for d in range(3)]] for i in range(3)]
+        NEW = z3.Function("NEWOFF", I, I, I)
+        calls = []
+
+        def strainer(ex_, args, kw):
+            call = args[0]
+            k = len(calls)
+            offs = ex_.as_iterable(call.get("offsets_r"))
+            rows = ex_.as_iterable(call.get("box_indexes"))
+            calls.append({"r": call.get("bfile_r"), "w": call.get("bfile_w"), "offs": list(offs), "rows": list(rows)})
+            if len(offs) != len(rows):
+                raise SymRaise("ValueError", "zip of lists of different lengths would drop boxes")
+            return [NEW(k, t) for t in range(len(offs))]
+        strainer._pyvc_builtin = True
+        cells = [{"files": list(FILES), "offsets": list(off), "indexes": indexes}]
+        self_ = Record(CO + "Colander", cells=cells, outdir="out", nvars=z3.Int("nvars"), kept_fields=Opaque("kept", "obj"),
+                       pfile="plt", cell_paths=["Level_0"], strainer=strainer, boxes=[[None, None, None]], limit_level=0)
+        return {"frame": {"self": self_, "lv": 0}, "off": off, "indexes": indexes, "NEW": NEW, "calls": calls}
+
+    def post(self, ex, inp, out):
+        ctx = ex.ctx
+        ctx.oblige("raises-nothing", out.kind == "ret", "P", note=str(out.exc) if out.kind != "ret" else "")
+        if out.kind != "ret":
+            return
+        from pyvc.ops import as_ndarray, compare
+        from pyvc.libnp import np_array
+        from pyvc.libos import os_getcwd, join2
+        cwd = os_getcwd(ex, [], {})
+        mo = as_ndarray(out.value["mapped_offsets"])
+        calls, off = inp["calls"], inp["off"]
+        ws = [str(c["w"]) for c in calls]
+        ctx.oblige("post.no-output-file-written-by-two-tasks", len(set(ws)) == len(ws), "P", note=str(ws))
+        for b in range(3):
+            rfile = join2(ex, cwd, FILES[b])
+            wfile = join2(ex, join2(ex, join2(ex, cwd, "out"), "Level_0"), FILES[b].split("/")[-1])
+            hits = []
+            for k, c in enumerate(calls):
+                same_files = compare(ex, "Eq", c["r"], rfile) is True and compare(ex, "Eq", c["w"], wfile) is True
+                for t in range(len(c["offs"])):
+                    reads_b = zand(to_z3(c["offs"][t]) == off[b], to_z3(veq(ctx, c["rows"][t], np_array(ex, [inp["indexes"][b]], {})))) if same_files else False
+                    hits.append((reads_b, inp["NEW"](k, t)))
+            conds = [to_z3(h) for h, _ in hits]
+            ctx.oblige(f"post.box-{b}-is-read-by-exactly-one-task-entry-with-its-own-file-offset-and-range",
+                       z3.PbEq([(c, 1) for c in conds], 1) if conds else False, "P")
+            ctx.oblige(f"post.box-{b}-gets-the-offset-written-for-it",
+                       zor(*[zand(h, to_z3(mo.elem((b,))) == n) for h, n in hits]) if hits else False, "P")
+
+
 def parent_tasks(tier):
-    return [StrainTask(FILES[0]), StrainTask(FILES[1]), StrainTaskList(), StrainScatter()]
+    return [StrainTask(FILES[0]), StrainTask(FILES[1]), StrainTaskList(), StrainScatter(), StrainLevel()]
 
 
 def parent_canaries():
